@@ -198,3 +198,34 @@ class MockerAdd:
         if is_absent(ep0):
             return len(member(self._matches, endpoint)) == 1
         return same(member(self._matches, endpoint), ep0) and dict_same_except(ep0, (version, method_name))
+
+
+@contract('pjrpc.client.integrations.pytest:PjRpcMocker.replace', props=['C20'])
+class MockerReplace:
+    types = {'self': 'pjrpc.client.integrations.pytest:PjRpcMocker', 'endpoint': 'str', 'method_name': 'str',
+             'result': 'any', 'error': 'any', 'id': 'opt:int|str', 'version': 'str', 'once': 'bool',
+             'callback': 'opt:=UserMockCallback', 'idx': 'int'}
+    raises_only = ('IndexError',)
+    modifies = ('$containers',)
+    cross_check = False
+
+    def requires_separate_maps(self, endpoint, method_name, result, error, id, version, once, callback, idx):
+        return (not same(self._matches, self._calls) and not same(member(self._matches, endpoint), self._matches)
+                and not isinstance(idx, bool))
+
+    def raises_IndexError_iff(self, endpoint, method_name, result, error, id, version, once, callback, idx):
+        # only an existing patch can be replaced (negative positions count from the end, as for any list)
+        ps = patches(self, endpoint, version, method_name)
+        n = 0 if is_absent(ps) else len(ps)
+        return not (-n <= idx < n)
+
+    def ensures_replaced(self, endpoint, method_name, result, error, id, version, once, callback, idx):
+        # C20: the patch at that position of the queue is the new one; the queue keeps its length
+        now = patches(self, endpoint, version, method_name)
+        n = old(len(patches(self, endpoint, version, method_name)))
+        i = idx if idx >= 0 else n + idx
+        return (not is_absent(now) and len(now) == n
+                and patch_is(now[i], endpoint, version, method_name, once, callback, id, result, error))
+
+    # NOT proved (solver timeout on the sequence update at a symbolic position): that every OTHER patch of the queue stays
+    # where it was.
